@@ -138,6 +138,14 @@ class Box:
             args += [self.target, marker, probes] + list(case.get("extra_args", []))
         elif case["target"] == "absent":
             args += [os.path.join(self.dir, "no-such-program"), marker, probes]
+        opf = None
+        if case.get("outer"):
+            # the whole command runs inside another sandbox command whose (valid) policy is case["outer"]
+            opf = base + ".outer.yml"
+            with open(opf, "w") as f:
+                f.write(case["outer"])
+            os.chmod(opf, 0o644)
+            args = [self.sandbox, "-policy", opf] + args
         kw = {}
         if case.get("uid"):
             kw = dict(user=case["uid"], group=case["uid"], extra_groups=[])
@@ -156,6 +164,8 @@ class Box:
                 os.remove(p)
         if kind == "text":
             os.remove(pf)
+        if opf:
+            os.remove(opf)
         return dict(exit=code, marker=ml, out=out.splitlines(), stderr=err[-600:], argv=args)
 
 
@@ -303,6 +313,12 @@ def invalid_cases(rng, ng, table_names):
     # a valid policy whose program is too large for the kernel
     pol = ng.policy("oversize")
     out.append(("program over 4096 instructions", dict(file=("text", render_yaml(pol)), target="probe", probes=[(39, 0, 0, 0, 0, 0, 0)])))
+    # a valid policy that the kernel refuses to install: the command itself runs under an outer filter that answers
+    # seccomp(2) (resp. prctl(2)) with EPERM
+    for callname in ("seccomp", "prctl"):
+        outer = "seccomp:\n  default_action: allow\n  syscalls:\n  - action: errno\n    names:\n    - %s\n" % callname
+        out.append(("the kernel refuses the filter (%s(2) answered with EPERM by an outer filter)" % callname,
+                    dict(file=("text", render_yaml(good())), target="probe", outer=outer, probes=[(39, 0, 0, 0, 0, 0, 0)])))
     # a valid policy, no target on the command line / unprivileged without no_new_privs
     out.append(("no target argument", dict(file=("text", render_yaml(good())), target="none", expect_marker=False)))
     out.append(("-no-new-privs=false as uid nobody (EACCES)", dict(file=("text", render_yaml(good())), target="probe", nnp=False, uid=NOBODY,
@@ -518,7 +534,7 @@ def check_C15(ctx, replay=None):
         evaluations=stats["runs"] + stats["probes"], sandbox_runs=stats["runs"], invalid_runs=stats["invalid"], valid_runs=stats["valid"],
         probes_judged=stats["probes"], traces_validated_against_impl=stats["runs"],
         distinct_nontrivial=stats["invalid"] + len(stats["nontrivial"]),
-        rule="the sandbox binary built from the working tree, run (a) on policy files invalid in one way each (missing, directory, empty, no seccomp section, no groups, three kinds of malformed YAML, four wrong types, unknown action / syscall name / operation in several spellings and positions incl. names written as variable references (${X:allow}, $allow, %{allow}), duplicate name, conditional+unconditional, argument index 6/7/100 and indices equal to a valid one modulo 2^29..2^31, an unknown name behind a conditional entry for syscall number 0, entry without conditions, program over 4096 instructions), without target argument, with -no-new-privs=false as uid nobody: judged exit status != 0 and marker file absent; (b) on seeded valid policy files (names, conditions on all six arguments, several groups, over 255 and over 1000 instructions; default allow/log; errno, allow, log, trace, trap, kill_process) with and without -no-new-privs, as root and nobody, one in five padded with comment lines to 4 KiB .. 1.1 MB, with extra target arguments: judged marker written once, every raw probe of the separate target equal to the extracted decide, exit status. non-trivial = invalid runs + distinct (policy, probe) pairs whose specified decision differs from the default action's",
+        rule="the sandbox binary built from the working tree, run (a) on policy files invalid in one way each (missing, directory, empty, no seccomp section, no groups, three kinds of malformed YAML, four wrong types, unknown action / syscall name / operation in several spellings and positions incl. names written as variable references (${X:allow}, $allow, %{allow}), duplicate name, conditional+unconditional, argument index 6/7/100 and indices equal to a valid one modulo 2^29..2^31, an unknown name behind a conditional entry for syscall number 0, entry without conditions, program over 4096 instructions, valid policy refused by the kernel because an outer filter answers seccomp(2) / prctl(2) with EPERM), without target argument, with -no-new-privs=false as uid nobody: judged exit status != 0 and marker file absent; (b) on seeded valid policy files (names, conditions on all six arguments, several groups, over 255 and over 1000 instructions; default allow/log; errno, allow, log, trace, trap, kill_process) with and without -no-new-privs, as root and nobody, one in five padded with comment lines to 4 KiB .. 1.1 MB, with extra target arguments: judged marker written once, every raw probe of the separate target equal to the extracted decide, exit status. non-trivial = invalid runs + distinct (policy, probe) pairs whose specified decision differs from the default action's",
         counterexamples=nbad, correspondence_differences=ndiff,
         input_distribution=dict(cases=stats["kinds"], outcomes=stats["outcomes"], recorded=stats["recorded"],
                                 program_length=dict(min=min(stats["lens"]) if stats["lens"] else 0, max=max(stats["lens"]) if stats["lens"] else 0,
